@@ -286,18 +286,34 @@ class LibraryRefused(Exception):
     outside the property under test (the case is discarded and counted)."""
 
 
-def make_solver(device, options, **kw):
+def make_solver(device, options, max_steps=None, **kw):
     """TDGLSolver(...) with the one construction failure that is outside every listed property mapped
     to LibraryRefused: SuperLU occasionally reports 'Factor is exactly singular' for the pure-Neumann
     (singular by construction) Poisson matrix of some meshes."""
     import tdgl
 
     try:
-        return tdgl.TDGLSolver(device, options, **kw)
+        solver = tdgl.TDGLSolver(device, options, **kw)
     except RuntimeError as exc:
         if "exactly singular" in str(exc):
             raise LibraryRefused("SuperLU: Poisson matrix exactly singular") from exc
         raise
+    # Safety net of the harness: an adaptive run whose time step collapses never reaches its end time (each step is
+    # cheap, so no time budget notices).  Far beyond anything a healthy run needs, the run is ended the way the library
+    # itself gives up, so that every check treats it as it treats non-convergence (C17 counts that as a violation).
+    nominal = (float(options.solve_time) + float(options.skip_time or 0.0)) / float(options.dt_init)
+    limit = int(max_steps) if max_steps else int(200 * max(nominal, 1.0)) + 2000
+    orig, count = solver.update, [0]
+
+    def update(*a, **k):
+        count[0] += 1
+        if count[0] > limit:
+            raise RuntimeError(f"harness step limit: the run failed to converge to its end time within {limit} steps "
+                               f"(nominal number for dt_init={options.dt_init:.3g}: {nominal:.0f})")
+        return orig(*a, **k)
+
+    solver.update = update
+    return solver
 
 
 def make_device_or_refuse(dspec, **kw):
